@@ -157,3 +157,31 @@ Print Assumptions C15_single_subst_address.
 Theorem C15_corr_accelerated_sound : forall same k, corr_with same k = corr_plain same k.
 Proof. exact corr_with_plain. Qed.
 Print Assumptions C15_corr_accelerated_sound.
+
+(* ---- beyond the data part: substitutions in the prefix and of the separator ---- *)
+(* a prefix character x enters polymod twice (x >> 5, and x & 31 at distance d = |prefix| + 1 later); the finite
+   pair table (vm_compute, 102 x 4 x 32 x 108 entries): no such double difference is invisible *)
+Theorem C15_pair_error_table : forall d e1 e2 k,
+  (2 <= d < 104)%nat -> e1 < 4 -> e2 < 32 -> (k < 108)%nat -> (e1 <> 0 \/ e2 <> 0) ->
+  let delta := Lpow k (N.lxor (Lpow d e1) e2) in delta <> 0 /\ delta <> N.lxor BECH32_CONST BECH32M_CONST.
+Proof. exact pair_error_table_stmt. Qed.
+Print Assumptions C15_pair_error_table.
+
+(* EVERY position of EVERY accepted string: a substituted character is rejected (or is a case-only change with the
+   same result) unless it moves the separator: "1" written into the data part, or the separator overwritten while
+   the prefix itself contains a "1" (never the case for addr / stake / _test prefixes) *)
+Theorem C15_single_subst_any : forall s r p i c,
+  bech32_decode s = Some r -> rfind 49 s = Some p -> (i < length s)%nat -> c <> nth i s 0 ->
+  ((p < i)%nat -> c <> 49) -> (i = p -> ~ In 49 (firstn p s)) ->
+  bech32_decode (subst i c s) = None
+  \/ (lowerc c = lowerc (nth i s 0) /\ bech32_decode (subst i c s) = Some r).
+Proof. exact single_subst_any. Qed.
+Print Assumptions C15_single_subst_any.
+
+Theorem C15_single_subst_any_address : forall s a p i c,
+  from_text s = Ok a -> rfind 49 s = Some p -> (i < length s)%nat -> c <> nth i s 0 ->
+  ((p < i)%nat -> c <> 49) -> (i = p -> ~ In 49 (firstn p s)) ->
+  from_text (subst i c s) = Err EType
+  \/ (lowerc c = lowerc (nth i s 0) /\ from_text (subst i c s) = Ok a).
+Proof. exact from_text_single_subst_any. Qed.
+Print Assumptions C15_single_subst_any_address.
